@@ -96,3 +96,54 @@ func VerifC09_ContextRoundTrip() {
 	verifAssert(verifMapEq(before, after) && verifMapEq(after, before), "request headers untouched by the response")
 	verifReach("end")
 }
+
+func init() {
+	verifHarnesses["VerifC09_ThroughProcessor"] = VerifC09_ThroughProcessor
+}
+
+// The same obligations observed where the property states them: inside the
+// handler, behind FBaseProcessor.Process and a processor function of the
+// generated shape, and in the reply frame the server produced.
+func VerifC09_ThroughProcessor() {
+	maxLen := verifBound()
+	fctx := NewFContext("cid")
+	k := verifStr(1 + verifChoice(maxLen))
+	verifAssume(!verifReserved(k))
+	v := verifStr(verifChoice(maxLen + 1))
+	fctx.AddRequestHeader(k, v)
+	timeouts := []time.Duration{0, time.Millisecond, 250 * time.Millisecond, 5 * time.Second, time.Hour}
+	want := timeouts[verifChoice(len(timeouts))]
+	fctx.SetTimeout(want)
+
+	rk := verifStr(1 + verifChoice(maxLen))
+	verifAssume(rk != opIDHeader)
+	rv := verifStr(verifChoice(maxLen + 1))
+	h := &verifPingHandler{outcome: verifOutcome(verifOutValue, 0)}
+	var seenTimeout time.Duration
+	var seenHeaders map[string]string
+	var seenOp string
+	h.onCall = func(c FContext) {
+		seenTimeout = c.Timeout()
+		seenHeaders = c.RequestHeaders()
+		seenOp = verifOpID(c)
+		c.AddResponseHeader(rk, rv)
+	}
+	proc := verifPingProcessor(h)
+	pf := NewFProtocolFactory(thrift.NewTBinaryProtocolFactoryDefault())
+	in := verifRequestFrame(fctx, verifReqKnown, "a")
+	out := NewTMemoryOutputBuffer(0)
+	err := proc.Process(pf.GetProtocol(&thrift.TMemoryBuffer{Buffer: bytes.NewBuffer(in)}), pf.GetProtocol(out))
+	verifAssert(err == nil && h.calls == 1, "the handler ran")
+	verifAssert(seenTimeout == want, "the handler observes exactly the caller's timeout (0 = no deadline included)")
+	got, ok := seenHeaders[k]
+	verifAssert(ok && got == v, "the handler observes the user header")
+	verifAssert(seenHeaders[cidHeader] == "cid", "the handler observes the correlation id")
+	verifAssert(len(seenHeaders) == 4, "and nothing else besides _cid, _opid, _timeout")
+	verifAssert(seenOp != verifOpID(fctx), "the handler context carries a fresh op id")
+	rep, _, pok := verifParseReply(out.Bytes())
+	verifAssert(pok && rep.opid == verifOpID(fctx) && rep.cid == "cid", "the reply carries the request's op id and correlation id")
+	if rk != cidHeader {
+		verifAssert(rep.headers[rk] == rv, "a response header set by the handler is in the reply")
+	}
+	verifReach("end")
+}
